@@ -23,7 +23,7 @@ PROP = dict(
                   "liquidation hook run, in both directions",
                   "the V2 surplus / debt trigger is reached by the harness (state p2s) and judged through its own projection: the hook's "
                   "liquidate_err event, the collector module balance, the net fees, the locked-vault and auction id counters and the "
-                  "mapping's active flag before / after the hook (Hooks.unit_obs_diff), and through crash points inside it"],
+                  "mapping's active flag before / after the hook (Hooks.trigger_obs_diff), and through crash points inside it"],
         assumptions=["reachability hypothesis of the sweep theorems: the length the vault sweeps pass as sliceLen (the stored LengthOfVault "
                      "counter) does not exceed the capacity of GetVaults() - it follows from C01's invariant 'vault count = number of open "
                      "vaults' (every wired path that adds or removes a vault moves the counter with it; the only double increment, "
